@@ -4,6 +4,7 @@ import (
 	"errors"
 	"fmt"
 	"strconv"
+	"strings"
 	"sync"
 	"sync/atomic"
 
@@ -15,7 +16,7 @@ import (
 // LibArg is the argument of the library handlers.
 type LibArg struct {
 	Rid   string // request id (unique per frame)
-	Act   string // ret | err | panic-s | panic-e | panic-st | slow | badreply
+	Act   string // ret | err | panic-s | panic-e | panic-st | slow | badreply | bigreply
 	Val   string
 	Code  int32
 	Msg   string
@@ -143,6 +144,9 @@ func LibDo(ctx erpc.CallCtx, a *LibArg) (interface{}, *erpc.Status) {
 		return &LibRes{Rid: a.Rid, Val: a.Val}, nil
 	case "badreply":
 		return make(chan int), nil
+	case "bigreply":
+		// larger than the message size limit the case configured (64 KiB)
+		return &LibRes{Rid: a.Rid, Val: strings.Repeat("B", 70000)}, nil
 	}
 	return &LibRes{Rid: a.Rid, Val: a.Val}, nil
 }
